@@ -372,7 +372,11 @@ def execute(sc, ctx):
             v, exc = BAD[op["v"]] if op["v"] in BAD else BAD["zero"]
             before = len(w.log)
             ctx.fault("reject.bad_n")
-            ctx.expect_raises("bad-n", exc, m.execute, v)
+            armed_, w.armed = w.armed, False        # (a rejected request runs nothing: the scripted failure must not mask "it ran")
+            try:
+                ctx.expect_raises("bad-n", exc, m.execute, v)
+            finally:
+                w.armed = armed_
             ctx.probe("bad_n_rejected")
             ctx.event("bad", op["v"])
             ctx.check(len(w.log) == before, "bad-n-executed", f"execute({v!r}) ran systems")
@@ -386,6 +390,7 @@ def execute(sc, ctx):
             v, exc = BAD[name_]
             before = len(w.log)
             ctx.fault("reject.bad_n")
+            w.armed = False
             ctx.expect_raises("bad-n-finished-model", exc, m.execute, v)
             ctx.check(len(w.log) == before, "bad-n-executed", f"execute({v!r}) on the finished model ran systems")
             check_clock(f"after rejected execute({v!r}) on the finished model")
